@@ -12,6 +12,7 @@ import sys
 import common
 from common import err_kind, enc, encl, dec, decl, close, close_list
 from fractions import Fraction as F
+from props import c11_hist as H
 
 ID = "C11"
 RULE = ("exhaustive small grids (reflection vectors of length <= 3 over a 9-point pool, pole sets of "
@@ -271,7 +272,48 @@ def generate(rng, tier, scale=1):
             cases.append(case_lev(r, max(1, order - 1)))       # order below len(r) - 1
         else:
             cases.append(case_lev(r[:max(2, order)], order + rng.choice([0, 1, 2])))   # zero extension
+    if scale == 1:
+        cases.extend(long_cases(rng, quick))
+    cases.extend(H.generate(rng, tier, scale))
     return cases
+
+
+def long_cases(rng, quick):
+    """high orders around powers of two, exact arithmetic (no zero coefficient: Poly's float zero stays out)"""
+    out = []
+    orders = [31, 32, 33, 63, 64, 65] if quick else [30, 31, 32, 33, 48, 63, 64, 65, 96, 100, 127, 128, 129]
+    for n in orders:
+        ks = [F(rng.choice([-3, -2, -1, 1, 2, 3]), rng.choice([4, 4, 5, 7])) for _ in range(n)]
+        out.append(case_stepup(ks))
+        if n <= (33 if quick else 65):
+            ks2 = list(ks)
+            ks2[rng.randrange(n // 2, n)] = rng.choice([F(1), F(-1)])       # ParCorError deep in the recursion
+            out.append(case_stepup(ks2))
+    for n in ([31, 33] if quick else [31, 32, 33, 63, 64, 65]):
+        for where in (["in", "on"] if quick else ["in", "on", "out"]):
+            npair = rng.randint(n // 4, n // 3)
+            # small dyadic poles: the exact recursion stays cheap (a few hundred digits at order 64)
+            reals = [F(rng.choice([-3, -2, -1, 1, 2, 3]), 4) for _ in range(n - 2 * npair)]
+            pairs = [rng.choice([(F(0), F(1, 2)), (F(1, 2), F(1, 2)), (F(-1, 2), F(1, 4)), (F(1, 4), F(-3, 4)),
+                                 (F(-1, 4), F(1, 2))]) for _ in range(npair)]
+            if where == "on":
+                if rng.random() < .5:
+                    reals[0] = rng.choice(ON_REAL)
+                else:
+                    pairs[0] = rng.choice(ON_PAIR)
+            elif where == "out":
+                reals[0] = rng.choice(OUT_REAL)
+            out.append(case_stable(rng.choice(GAINS), reals, pairs))
+    for n in ([32, 64] if quick else [31, 32, 33, 63, 64, 65]):
+        ks = [F(0)] * n
+        for i in rng.sample(range(n - 1), 4):
+            ks[i] = F(rng.choice([-2, -1, 1, 2]), 8)
+        ks[-1] = F(rng.choice([-1, 1]), 8)
+        r = acorr_from_ks(ks, F(rng.choice([1, 2])))
+        out.append(case_lev(r, n))
+        if not quick:
+            out.append(case_lev(r[:n // 2 + 1], n))          # zero extension up to the order
+    return out
 
 
 def rnd_pair(rng, where):
@@ -297,6 +339,9 @@ def _drain(gen):
 
 
 def impl(c):
+    H.zygote_start()       # the pristine process of the histories is forked before this one uses the library
+    if c["entry"] == "hist":
+        return H.impl(c)
     from audiolazy import ZFilter, parcor, parcor_stable, levinson_durbin
     from audiolazy.lazy_lpc import ParCorError
     e = c["entry"]
@@ -329,6 +374,8 @@ def impl(c):
 
 
 def request(c):
+    if c["entry"] == "hist":
+        return H.request(c)
     return c
 
 
@@ -379,6 +426,8 @@ def _critical(ks):
 
 def compare(c, io, drv):
     e = c["entry"]
+    if e == "hist":
+        return H.compare(c, io, drv)
     out = []
     if e in ("stepup", "parcor"):
         m = drv["model"]
@@ -470,11 +519,16 @@ def _order(c):
 
 
 def nontrivial(c, io):
+    if c["entry"] == "hist":
+        return H.nontrivial(c, io)
     return _order(c) >= 1 and io.get("err") != "ValueError"
 
 
 def tally(eng, c, io):
     e = c["entry"]
+    if e == "hist":
+        eng.count("entry", e)
+        return H.tally(eng, c, io)
     eng.count("entry", e)
     eng.count("compared:" + e, io.get("compared", "error branch"))
     eng.count("order", min(_order(c), 12))
@@ -538,6 +592,10 @@ def _list_variants(xs, keep_last_nonzero=False, minlen=1):
 
 def shrink(c):
     e = c["entry"]
+    if e == "hist":
+        for s in H.shrink(c):
+            yield s
+        return
     if e == "stepup":
         for ks in _list_variants(decl(c["ks"]), keep_last_nonzero=True):
             yield case_stepup(ks)
@@ -582,6 +640,10 @@ def shrink(c):
 
 def neighbours(c):
     e = c["entry"]
+    if e == "hist":
+        for s in H.neighbours(c):
+            yield s
+        return
     for s in shrink(c):
         yield s
     if e == "stepup":
@@ -609,6 +671,8 @@ def neighbours(c):
 def classify(c, io, drv):
     """signature of a disagreement with the spec"""
     e = c["entry"]
+    if e == "hist":
+        return H.classify(c, io, drv)
     if "err" in io:
         return "%s:%s" % (e, io["err"])
     if e in ("parcor", "stepup"):
